@@ -51,7 +51,7 @@ OPS_REQUIRED = ["sort_tree", "get_subtree", "to_subtree", "cut_tree", "redirect_
                 "RadiusReseter", "Transforms"]
 REQUIRED = ["contract_evals_" + o for o in OPS_REQUIRED] + [
     "steps_executed", "probe_output_poison", "probe_input_poison", "roundtrip_steps",
-    "identity_transform_steps", "same_tree_in_two_argument_positions",
+    "identity_transform_steps", "same_tree_in_two_argument_positions", "size_sweep_cases",
     "steps_on_readonly_columns"]
 FLOOR = {"quick": 300, "thorough": 30000}
 SHARDS = {"quick": 8, "thorough": 16}
@@ -91,7 +91,7 @@ def spec_of(t):
     return {"pid": t.pid(), "x": t.x(), "y": t.y(), "z": t.z(), "type": t.type()}
 
 
-def draw_op(rng, t, allow_grow=True):
+def draw_op(rng, t, allow_grow=True, force=None):
     """Returns (label, fn(tree, *more), extra_inputs, expect) with admissible arguments."""
     from swcgeom.core import (cat_tree, cut_tree, get_subtree, redirect_tree, sort_tree,
                               to_subtree, Tree)
@@ -104,7 +104,7 @@ def draw_op(rng, t, allow_grow=True):
                "Rotate", "RotateXYZ", "TranslateOrigin", "AffineTransform", "Normalizer",
                "RadiusReseter", "TreeSmoother", "IsometricResampler", "Transforms", "roundtrip",
                "identity"]
-    name = str(rng.choice(choices))
+    name = str(rng.choice(choices)) if force is None else force
     if name == "sort_tree":
         return name, lambda a: sort_tree(a), [], None
     if name == "get_subtree":
@@ -237,7 +237,9 @@ def _run_pipeline(ctx, case):
     t = G.build(spec, with_tag=False, comments=["first", "  second"], frozen_ok=True)
     max_n = 300 if ctx.quick else 3000
     for step in range(case["length"]):
-        label, fn, extra, kind = draw_op(rng, t, allow_grow=len(t) < max_n)
+        forced = case.get("ops")
+        label, fn, extra, kind = draw_op(rng, t, allow_grow=len(t) < max_n,
+                                         force=forced[step] if forced else None)
         inputs = [t] + extra
         copies = [clone(x) for x in inputs]
         before = [contracts.fingerprint(x) for x in inputs]
@@ -343,6 +345,15 @@ def run(ctx):
                 "length": int(rng.integers(1, 9 if ctx.quick else 26))}
         ctx.case(case, nontrivial=case["length"] >= 2 and rc["n"] >= 3,
                  klass=f"{rc['shape']}")
+        execute(ctx, case)
+    for j, rc in enumerate(G.sweep_recipes(ctx, max_small=4097, large=0)):
+        # node counts on / next to powers of two and block sizes through the renumbering, pruning
+        # and file operations
+        ops = [["roundtrip", "sort_tree"], ["redirect", "roundtrip"], ["to_subtree", "roundtrip"],
+               ["sort_tree", "get_subtree"]][j % 4]
+        case = {"tree": rc, "pseed": 11 + j, "length": len(ops), "ops": ops}
+        ctx.case(case, klass="size-sweep")
+        ctx.count("size_sweep_cases")
         execute(ctx, case)
     if ctx.shard == 0:  # one deep chain through the stack-based operations
         from swcgeom.core import Tree, get_subtree, redirect_tree, sort_tree
